@@ -16,11 +16,11 @@ import (
 func init() { gens["C04"] = genC04 }
 
 type c04Input struct {
-	Unit    string `json:"unit"`  // Go-quoted
-	Value   string `json:"value"` // as written on the benchmark line
-	Bits    string `json:"value_bits"`
-	Unit2   string `json:"unit2,omitempty"`
-	Val2    string `json:"val2,omitempty"`
+	Unit    string   `json:"unit"`  // Go-quoted
+	Value   string   `json:"value"` // as written on the benchmark line
+	Bits    string   `json:"value_bits"`
+	Unit2   string   `json:"unit2,omitempty"`
+	Val2    string   `json:"val2,omitempty"`
 	Lookups []string `json:"lookups,omitempty"`
 }
 
@@ -200,9 +200,9 @@ func c04One(o *hx.Out, r *hx.Rng, u string, v float64, tags ...string) (err erro
 }
 
 type c04SeqInput struct {
-	Kind    string `json:"kind"`
-	Text    string `json:"text"` // Go-quoted
-	Filter  string `json:"filter"`
+	Kind    string   `json:"kind"`
+	Text    string   `json:"text"` // Go-quoted
+	Filter  string   `json:"filter"`
 	Lookups []string `json:"lookups"`
 }
 
